@@ -103,7 +103,10 @@ def main(argv=None):
         cmd = [sys.executable, "-m", "vmon.main", args.prop, "--tier", "thorough",
                "--seed", str(args.seed), "--shard", "%d/%d" % (i, mod_shards),
                "--part-out", part]
-        procs.append((i, part, subprocess.Popen(cmd, cwd=boot.VERIF_DIR)))
+        # each shard under another string-hash seed: set / dict-of-str iteration order is part of the
+        # interpreter state a user's process has, and it is fixed (0) only in the quick tier
+        procs.append((i, part, subprocess.Popen(cmd, cwd=boot.VERIF_DIR,
+                                                env=dict(os.environ, PYTHONHASHSEED=str(i)))))
     parts, dsets, failed = [], [], 0
     limit = float(os.environ.get("VERIF_SHARD_TIMEOUT", "7200"))
     for i, part, proc in procs:
